@@ -44,8 +44,7 @@ package expreval
 //@   input:val1 value(n1)
 //@   input:val2 value(n2)
 //@   ensures len(result.bs) == w
-//@   ensures[by-zero] vext(val2, w) == 0 ==> vext(result, w) == ones(w)
-//@   ensures[quotient] vext(val2, w) != 0 ==> vext(result, w) == vext(val1, w) / vext(val2, w)
+//@   ensures vext(result, w) == ite(vext(val2, w) == 0, ones(w), vext(val1, w) / vext(val2, w))
 
 //@ func Nand
 //@   enum w in WIDTHS, n1 in VLENS, n2 in VLENS
